@@ -42,14 +42,17 @@ CHECKS = {
              "the instance prefix. Slow convergence is re-run once and otherwise counted as discarded_timing. (b) leader-assigned variant: real "
              "serviceDiscovery as leader, 0..7 fake follower clients (join times incl. ties, ping failing from round 1/2) forwarding to real "
              "follower-side serviceDiscovery objects, 2 (quick) / 3 (thorough) hard-coded 5 s rounds, all cases concurrent: leader 1/(n+1), "
-             "followers 2.. in join order, distinct, failed followers dropped and no longer addressed, announce only on change. (c) static "
+             "followers 2.. in join order, distinct, failed followers dropped and no longer addressed, announce only on change; in groups with otherwise stable membership "
+             "the assignment RPC to a follower fails transiently in generated rounds (also the last one) and follower processes restart "
+             "under their name (same or later join time) between two rounds - every live process must hold its number at the end. (c) static "
              "membership relays the configured numbers; PUT /membership/info through the real HTTP API + real dynamic membership: last value "
              "wins, repeated values are not announced. non-trivial = (a) >= 3 joins and a non-last member leaving, (b) >= 2 followers and a "
-             "ping failure, (c) a repeated PUT",
+             "ping failure / failed RPC / restart, (c) a repeated PUT",
         assumptions=["membership operations are separated by quiescence and join times are distinct (as the property states)",
                      "the order in which members run their monitor rounds is whatever the timers give (sampled, not owned)",
                      "kubernetesStatefulSet (reads os.Hostname) and the Kubernetes lease itself are not reachable offline; only the numbering logic downstream of them is exercised"],
         units=[rapid("TestC10_Couchbase", 1, 1, 4, 8), rapid("TestC10_Leader", 1, 1, 2, 8), rapid("TestC10_Relay", 300, 20000, 1, 4)],
+        min_share=dict(any={"leader_rpc_failure": ["leader_cases", 0.05], "leader_follower_restart": ["leader_cases", 0.04]}),
     ),
     "C20": dict(
         level="fault_enumeration",
@@ -155,7 +158,7 @@ CHECKS = {
         assumptions=["high seqno >= stored seqno (the opposite is C15's fail-stop)", "file backend: all assigned vBuckets or none have a document (one file for all)",
                      "simnode's KV / sub-document / DCP_STREAM_REQ handling is the trusted model of the server"],
         units=[rapid("TestC02_Open", 12000, 1000000), rapid("TestC02_FileHistory", 3000, 200000), rapid("TestC02_RoundTrip", 2400, 100000), rapid("TestC02_Wire", 1600, 100000),
-               rapid("TestC02_JSON", 10000, 1000000), fuzz("FuzzC02Doc", 120)],
+               rapid("TestC02_JSON", 10000, 1000000), fuzz("FuzzC02Doc", 120), rapid("TestC02_ReadOnlyDcp", 240, 20000, 8, 16)],
         min_share=dict(any={"latest_reset_applies": ["open_cases", 0.08], "read_only": ["open_cases", 0.15], "backend_file": ["open_cases", 0.2]}),
     ),
     "C03": dict(
@@ -165,14 +168,16 @@ CHECKS = {
              "prefixes; CAS full-range plus values within +-1 s / +-1 ns of skipUntil; collection ids configured / unlisted / 0; revNo, flags, "
              "expiry, lockTime, datatype, deleteTime full-range; single/multi/back-to-back snapshots; skipUntil nil / whole second / with "
              "nanoseconds / extreme; a third of the vBuckets are streamed 'after a server-requested rollback' (observer.SetCatchup(F) as "
-             "client.go does, F = a generated event's seqno -1/0/+1, incl. F at a snapshot start). Oracle: per vBucket the delivered list "
+             "client.go does, F = a generated event's seqno -1/0/+1, incl. F at a snapshot start); a quarter of the others end with a transient "
+             "cause after a generated event, are requested again by the library and resumed by the harness after the requested position. Oracle: per vBucket the delivered list "
              "equals, as a sequence, the input minus reserved-prefix keys minus events whose CAS-second is before skipUntil minus events at or "
              "below F; every field, collection name, event time and offset compared with what was sent. "
              "non-trivial = >=2 vBuckets, >=1 delivered and >=1 filtered event, >=2 snapshots on some vBucket",
         assumptions=HIST_ASSUME[:1] + [HIST_ASSUME[2], "Layer A emulates gocbcore's decode-and-dispatch (dcpcomponent.go); the wire path is exercised in C08/C02 on the simulated node"],
         units=[rapid("TestC03_Delivery", 6000, 500000)],
         min_share=dict(any={"filtered_skip_until": ["cases", 0.15], "filtered_reserved_key": ["cases", 0.3], "multi_snapshot": ["cases", 0.5],
-                            "filtered_catchup": ["cases", 0.25], "catchup_at_snapshot_start": ["cases", 0.05]}),
+                            "filtered_catchup": ["cases", 0.25], "catchup_at_snapshot_start": ["cases", 0.05],
+                            "stream_ended_and_requested_again": ["cases", 0.2]}),
     ),
     "C04": dict(
         level="exploration",
@@ -195,9 +200,11 @@ CHECKS = {
              "call; oracle after every save: D_t0(v) <= stored(v) <= M_t1(v) for success, nothing required but nothing forgotten after failure "
              "(checked at the next success), a save with nothing new performs no per-vBucket write, a skipped save is a violation when advanced "
              "progress is not durable. non-trivial = (failed save later followed by a successful one) or (ack/non-document event during a store "
-             "call followed by a successful save); distinct by hash of the op-list",
+             "call followed by a successful save); the same kind of histories on the real file (whole-state) backend, the file read back "
+             "after every save that happened (the furthest settled position of every advanced vBucket of the session must be in it); "
+             "distinct by hash of the op-list",
         assumptions=HIST_ASSUME + ["'before the dump' is not separable from 'before the call' from outside: the harness orders ops before the Save call, during the blocked store call, or after it returned"],
-        units=[rapid("TestC05_History", 6000, 400000), rapid("TestC05_Periodic", 40, 600, 4, 16), plain("TestC05_Fixed")],
+        units=[rapid("TestC05_History", 6000, 400000), rapid("TestC05_FileHistory", 1500, 100000), rapid("TestC05_Periodic", 40, 600, 4, 16), plain("TestC05_Fixed")],
         min_share=dict(any={"save_ok_after_failure": ["histories", 0.10], "ack_during_store": ["histories", 0.10], "save_in_flight": ["histories", 0.2]}),
     ),
     "C06": dict(
@@ -322,13 +329,19 @@ CHECKS = {
              "if a non-zero threshold >= its seqno had been issued before (Lamport-style: max issued is published before the call), the threshold "
              "never decreases and equals the max, every covered event is delivered within 2 s (no lost wake-up), Close releases waiters without "
              "delivery; (c) integration on a 3-node simulated cluster with the real rollbackMitigation polling OBSERVE_SEQNO: an event is consumed "
-             "only after every listed copy replied persist >= seq under one vbUUID. non-trivial = (a) >=2 present copies, (b) an event that had to "
+             "only after every listed copy replied persist >= seq under one vbUUID; steps also bump the cluster map revision or MOVE a replica "
+             "to a node that holds no copy yet (the harness waits until the library has started over - it re-reads the failover logs then), "
+             "plus a directed 'move trap' (replicas ahead of the active copy, one of them moves, the active's report rises exactly when the "
+             "library starts over under the new map, the moved copy answers slowly; half of them with production-like poll spacing). "
+             "non-trivial = (a) >=2 present copies, (b) an event that had to "
              "wait, (c) a lagging replica or vbUUID disagreement window",
         assumptions=["(b),(c) use real time: bounds are >= 400x the poll interval; the harness publishes 'max issued' before calling SetPersistSeqNo, so the check is a necessary condition and cannot false-alarm on scheduling",
-                     "simnode's OBSERVE_SEQNO / cluster-map handling is the trusted server model"],
+                     "simnode's OBSERVE_SEQNO / cluster-map handling is the trusted server model (a node that holds no copy of the vBucket answers NOT_MY_VBUCKET with the current map; both agents follow map changes by CCCP polling)",
+                     "a report change made in the same instant as a map change is NOT generated: it would race with the library's last poll rounds under the old map, where the old copy legitimately still counts"],
         units=[enum("TestC07_MinRuleExhaustive", 8, 16), rapid("TestC07_MinRuleRapid", 20000, 2000000), rapid("TestC07_Gate", 600, 40000, 8, 16),
                rapid("TestC07_Integration", 48, 3000, 8, 16, shrinktime="20s")],
-        min_share=dict(any={"event_had_to_wait": ["gate_cases", 0.3], "closed_mid_run": ["gate_cases", 0.1]}),
+        min_share=dict(any={"event_had_to_wait": ["gate_cases", 0.3], "closed_mid_run": ["gate_cases", 0.1],
+                            "replica_moved_with_active_report": ["integration_cases", 0.04], "config_bump": ["integration_cases", 0.1]}),
     ),
     "C08": dict(
         level="exploration",
@@ -350,7 +363,10 @@ CHECKS = {
              "thorough: N in 1..1024 complete) through helpers.ChunkSlice, all (T, member) for N in {64,128,1024} "
              "through the real stream.NewVBucketDiscovery(static).Get(), plus rapid-sampled (N,T,member) with "
              "neighbour adjacency; plus membership histories on ONE discovery object (dynamic membership, 1..12 changes incl. same "
-             "group size with another member number and unchanged info re-published; every answer compared with a fresh object's); non-trivial = N not divisible by T (histories: a renumbering with the "
+             "group size with another member number and unchanged info re-published; every answer compared with a fresh object's); plus leader-numbered groups (kubernetesHa: real service discovery on leader and "
+             "followers, real membership and discovery object per member, fake RPC link with generated ping failures, failed assignment "
+             "RPCs and restarted followers; 2-3 monitor rounds of the library's hard-coded 5 s) whose members' sets must partition the "
+             "bucket at the end; non-trivial = N not divisible by T (histories: a renumbering with the "
              "same group size); enumerated cases are distinct by construction, sampled ones by hash",
         assumptions=["T<=N and member number in 1..T as the property states (callers: config validation is the user's)"],
         units=[
@@ -358,6 +374,7 @@ CHECKS = {
             enum("TestC09_DiscoveryExhaustive"),
             rapid("TestC09_Rapid", 20000, 400000),
             rapid("TestC09_DiscoveryHistory", 3000, 200000),
+            rapid("TestC09_LeaderGroup", 1, 1, 2, 8),
         ],
         min_share=dict(any={"renumbered_same_group_size": ["discovery_histories", 0.3]}),
     ),
